@@ -88,6 +88,7 @@ func profile(name string) Profile {
 		w["getabs"], w["tick"], w["control"], w["exist"] = 6, 6, 4, 8
 	case "C01":
 		w["getabs"] = 6
+		w["recreate"] = 3 // Create on the existing collection switching cache / async settings, writes pending
 	case "C06":
 		w["getabs"], w["ins"], w["upd"], w["many"], w["bulk"], w["failwrite"] = 4, 22, 22, 8, 4, 22
 		w["reopen"], w["closereopen"] = 2, 2
@@ -818,7 +819,20 @@ func (e *Exec) GenOp(r *rand.Rand, p Profile) []string {
 			return []string{fmt.Sprintf("%s %d", []string{"corrupt", "truncfile"}[r.Intn(2)], u)}
 		}
 	case "commit":
-		return []string{[]string{"commit", "flushall", "flushallc"}[r.Intn(3)]}
+		switch r.Intn(5) {
+		case 0:
+			return []string{"commit"}
+		case 1:
+			return []string{"flushall"}
+		case 2:
+			return []string{"flushallc"}
+		case 3:
+			// what FlushAllAndCommit promises, observed at once on the directory
+			return []string{"flushallc", "fs"}
+		default:
+			// ... also when an earlier FlushAll left nothing pending but the index uncommitted
+			return []string{"flushall", "flushallc", "fs"}
+		}
 	}
 	return []string{"count"}
 }
